@@ -114,6 +114,12 @@ def _check_length(args):
             return range(length)
         if kind == "tuple":
             return tuple(range(length))
+        if kind == "seqobj":
+            from vlib.values import SeqObj
+            return SeqObj(list(range(length)))
+        if kind == "userlist":
+            import collections
+            return collections.UserList(range(length))
         return dict.fromkeys(range(length)).keys()
     # (i) direct API
     rd = RepeatDict({})
@@ -191,7 +197,8 @@ class Positions(Stage):
         return "K2" if mismatch.bucket == "positions:K2" else None
 
     def run(self, tier, seed, check):
-        kinds = ["list", "gen", "range", "tuple", "keys"]
+        kinds = ["list", "gen", "range", "tuple", "keys", "seqobj",
+                 "userlist"]
         jobs = []
         for ln in self.lengths(tier):
             if ln <= 60:
@@ -245,6 +252,8 @@ def seq_strategy(depth):
         st.builds(lambda l: wrap("list", l), elems),
         st.builds(lambda l: wrap("tuple", l), elems),
         st.builds(lambda l: wrap("gen", l), elems),
+        st.builds(lambda l: wrap("userlist", l), elems),
+        st.builds(lambda l: wrap("seqobj", l), elems),
         st.builds(lambda n: ["range", n], st.integers(0, 4)),
         st.builds(lambda l: ["keys", [[v, ["none"]] for v in dict.fromkeys(l)]],
                   words),
